@@ -30,6 +30,9 @@ type App struct {
 	RestoreAt []RestoreRec // one per entry of Restores
 	States    []state.State
 	FailNext  int // >0: the next commit returns an error (C02/C05 fault injection)
+	// FailAfterApply: commit number k (1-based) is applied and recorded as usual, but the call returns an error
+	// (what a proxy time-out looks like to babble: the application may well have applied the block)
+	FailAfterApply map[int]bool
 	StepFn    func() int
 }
 
@@ -91,6 +94,9 @@ func (a *App) CommitHandler(block hg.Block) (proxy.CommitResponse, error) {
 	a.Commits = append(a.Commits, rec)
 	snap, _ := json.Marshal(snapshot{State: a.State, Index: block.Index()})
 	a.Snapshots[block.Index()] = snap
+	if a.FailAfterApply[len(a.Commits)] {
+		return proxy.CommitResponse{}, fmt.Errorf("app: commit applied, reply lost")
+	}
 	return proxy.CommitResponse{StateHash: append([]byte{}, a.State...), InternalTransactionReceipts: receipts}, nil
 }
 
